@@ -2,11 +2,13 @@ SPECIFICATION BuildSpec
 CONSTANTS
   Graph <- SmallGraph
   MaxDepth = 2
-  MaxIds = 2
+  MaxIds = 1
   Pfx = {"p", "q:"}
-  Pool = {"a", "o", "z"}
+  Pool = {"z"}
+  CopyImmediates = FALSE
+  MaxEnvs = 2
   MaxTicks = 2
-  StartLibs = {1, 2, 3}
+  StartLibs = {2}
 INVARIANTS
   LawWF LawAgree LawNoInvent LawBindingsExist LawPrefixDrop LawPartition LawRename LawSwap
 CHECK_DEADLOCK FALSE
